@@ -30,6 +30,7 @@ import (
 
 	"go/version"
 
+	"golang.org/x/mod/semver"
 	"golang.org/x/telemetry/godev/internal/config"
 	"golang.org/x/telemetry/godev/internal/content"
 	"golang.org/x/telemetry/godev/internal/storage"
@@ -96,7 +97,10 @@ var goverPool = []string{"go1.20", "go1.20.1", "go1.20.14", "go1.21.0", "go1.21r
 	"go2.0", "go1.21.0-bigcorp", "devel", "go", "goX", "go01.2", "go1.02", "go0.5", "xx1y2", "go1.21.0 X:boring", "go10.1", "go1x", "go1.", "go1.x"}
 var goverBad = []string{"go1", "g", "", "go12", "go7", "ab3"}
 var semverPool = []string{"v1.0.0", "v1.2.3", "v1.10.0", "v1.2.3-pre", "v1.2.3-pre.1", "v0.0.1", "v2.0.0+incompatible", "devel",
-	"v1.2", "v1.02.0", "", "v1.0.0+meta", "v1.0.0+a", "v1", "v1.0", "go1.21.3", "v0.14.2", "v0.15.0-pre.2"}
+	"v1.2", "v1.02.0", "", "v1.0.0+meta", "v1.0.0+a", "v1", "v1.0", "go1.21.3", "v0.14.2", "v0.15.0-pre.2",
+	"v1.2.3+incompatible", "v1.2.0", "v1.2.0+x", "tip"}
+// versions of equal semver precedence, and non-semver strings (all of equal precedence)
+var semverTies = []string{"v1.2.3", "v1.2.3+incompatible", "v1.2.3+build.7", "v1.2", "v1.2.0", "v1.2.0+x", "devel", "tip", "", "1.2.3", "v1.02.0"}
 var weekPool = []string{"2024-01-07", "2024-01-14", "2023-12-31", "2024-01-21", "", "9999", "2024-01-7"}
 var counterCfgPool = []string{"editor:{vim,emacs,vscode}", "flag:{a,b}", "plain", "GOOS:{linux,darwin}", "a:a", "a",
 	"x:{}", "y:{", "gopls/client:{vscode,vim,other}", "z:{p,p}", "w:{q:r,s}", "GoVersion:{go1.20,go1.21}", "Version:{v1.0.0}",
@@ -130,6 +134,9 @@ func genConfig(malformed bool) *telemetry.UploadConfig {
 			p.Versions = pickSome(goverPool, 0, 4)
 		} else {
 			p.Versions = pickSome(semverPool, 0, 7)
+			if vrnd.Chance(35) {
+				p.Versions = append(p.Versions, pickSome(semverTies, 3, 7)...)
+			}
 		}
 		for _, c := range pickSome(counterCfgPool, 0, 4) {
 			p.Counters = append(p.Counters, telemetry.CounterConfig{Name: c, Rate: 1})
@@ -840,6 +847,18 @@ func safeMajorMinor(v string) (res string, ok bool) {
 	return goMajorMinor(v), true
 }
 
+// specCompareSemver: the order the Version chart is specified to have:
+// semver precedence (golang.org/x/mod/semver), versions of equal precedence
+// (v1.2.3 / v1.2.3+incompatible, v1.2 / v1.2.0, all non-semver strings)
+// lexically, so that the order is total and the chart deterministic.  Written
+// here, not taken from the worker's helper of the same purpose.
+func specCompareSemver(x, y string) int {
+	if c := semver.Compare(x, y); c != 0 {
+		return c
+	}
+	return strings.Compare(x, y)
+}
+
 // rankTable: the keys sorted by the real comparator; keys comparing equal share a rank
 func rankTable(keys []string, cmp func(x, y string) int) []string {
 	set := map[string]bool{}
@@ -1019,7 +1038,7 @@ func caseChart() {
 			goKeys = append(goKeys, k)
 		}
 	}
-	fields = append(fields, rankTable(semKeys, compareSemver)...)
+	fields = append(fields, rankTable(semKeys, specCompareSemver)...)
 	fields = append(fields, rankTable(goKeys, version.Compare)...)
 	fields = append(fields, I(dayNumber(start)), I(dayNumber(end)), I(int64(ndays)))
 	nrep := 0
@@ -1439,7 +1458,7 @@ func caseSeq() {
 			goKeys = append(goKeys, k)
 		}
 	}
-	fields = append(fields, rankTable(semKeys, compareSemver)...)
+	fields = append(fields, rankTable(semKeys, specCompareSemver)...)
 	fields = append(fields, rankTable(goKeys, version.Compare)...)
 	fields = append(fields, I(int64(len(vals))))
 	for _, v := range vals {
